@@ -1,0 +1,7 @@
+//go:build !verif
+
+package caco3
+
+import "time"
+
+func verifCacheClock() func() time.Time { return nil }
